@@ -108,6 +108,19 @@ def map_remove(ex, args):
     m.entries.remove(e); return some(e[1])
 
 
+@model(MAP + r'::<.*>::drain')
+def map_drain(ex, args):
+    m = as_map(args[0]); items = [Struct('()', [e[0], e[1]]) for e in m.entries]
+    m.entries[:] = []
+    return SeqIter(items)
+
+
+@model(SET + r'::<.*>::drain')
+def set_drain(ex, args):
+    s = as_set(args[0]); items = list(s.items); s.items[:] = []
+    return SeqIter(items)
+
+
 @model(MAP + r'::<.*>::(len|is_empty)')
 def map_len(ex, args, m_):
     n = len(as_map(args[0]).entries)
